@@ -885,11 +885,12 @@ static void sc_http(const Case &c) {
   K().reset();
   h_cbs = 0;
   h_null = false;
-  int variant = 0;
+  int variant = 0, conn = 0;
   size_t blen = 100, limit = 1 << 20;
   for (auto &op : c)
     if (op.k == "http") {
       variant = (int)(((op.a.size() > 0 ? op.a[0] : 0) % 4 + 4) % 4);
+      conn = (int)(((op.a.size() > 3 ? op.a[3] : 0) % 4 + 4) % 4);  // 0 connects later, 1 connects at once, 2 fails later, 3 fails at once (inside http_request)
       blen = (size_t)std::min<int64_t>(std::max<int64_t>(op.a.size() > 1 ? op.a[1] : 100, 0), 20000);
       if (op.a.size() > 2 && (op.a[2] & 1)) limit = blen;
     }
@@ -911,8 +912,9 @@ static void sc_http(const Case &c) {
     h_wire += "Content-Length: " + std::to_string(body.size()) + "\r\n\r\n" + body;
   K().on_socket = h_on_socket;
   AddrBehav ab;
-  ab.kind = CB_ASYNC_OK;
+  ab.kind = conn == 0 ? CB_ASYNC_OK : conn == 1 ? CB_OK_NOW : conn == 2 ? CB_ASYNC_FAIL : CB_FAIL_NOW;
   ab.delay = 100;
+  ab.err = ECONNREFUSED;
   K().addrs[4000] = ab;
   static uint8_t reqbody[300];
   void *H;
@@ -1226,7 +1228,7 @@ int main(int argc, char **argv) {
      [](int) {
        return rc::gen::exec([]() {
          Case c;
-         c.push_back(Op("http", {*range<int>(0, 3), *rc::gen::elementOf(std::vector<int64_t>{0, 10, 100, 4096, 5000, 20000}), *range<int>(0, 1)}));
+         c.push_back(Op("http", {*range<int>(0, 3), *rc::gen::elementOf(std::vector<int64_t>{0, 10, 100, 4096, 5000, 20000}), *range<int>(0, 1), *rc::gen::weightedElement<int>({{3, 0}, {1, 1}, {1, 2}, {2, 3}})}));
          return c;
        });
      },
